@@ -34,4 +34,4 @@ Case gen_sched_case(SchedProp which);
 void fixed_sched(Ctx &ctx, SchedProp which, const char *pid);
 
 // ownership monitor over a totally ordered event stream; returns "" if every rule held
-std::string monitor_events(const std::vector<wapi::Event> &ev, int T, const std::vector<uint32_t> &blocks_per_fill, bool recorder, std::map<std::string, uint64_t> *counts);
+std::string monitor_events(const std::vector<wapi::Event> &ev, int T, const std::vector<uint32_t> &blocks_per_fill, bool recorder, std::map<std::string, uint64_t> *counts, bool partial = false);
